@@ -101,6 +101,7 @@ type World struct {
 	lastPanicLoc string
 	subs         []*subCtx
 	knownTrue    map[string]bool
+	fmtOrigin    map[string]*Term
 	noSchedObjs  map[*syncObj]bool
 	inSummary    map[*ssa.Function]bool
 	concrete     map[string]any // concrete re-execution: input values by name
